@@ -80,7 +80,7 @@ def main():
     if out and os.path.exists(out):
         os.remove(out)
     opts = runs.options(solve_time=cfg.get("T", 0.2), dt_init=cfg.get("dt", 5e-3), dt_max=5e-2, adaptive=cfg.get("adaptive", False), adaptive_window=2,
-                        save_every=cfg.get("save_every", 3), output_file=out, include_screening=cfg.get("screening", False), screening_tolerance=1e-3)
+                        save_every=cfg.get("save_every", 3), output_file=out, **(dict(progress_interval=cfg["progress"]) if cfg.get("progress") else {}), include_screening=cfg.get("screening", False), screening_tolerance=1e-3)
     seed = None
     if cfg.get("seeded"):
         # a short run whose final state seeds the runs that are compared (the seed object is reused below)
